@@ -19,6 +19,8 @@ for f in sorted(glob.glob(os.path.join(HERE, "seeded", "*", "meta.json"))):
     if mm:
         # later rounds record the first-run verdicts; "strengthened" = something had to change afterwards
         strengthened = bool(mm.group(3).strip())
+    if "caught on the first run by the check as it stood" in hist and "a clause that executes" not in hist:
+        strengthened = False
     rows.append(f"| `{os.path.basename(os.path.dirname(f))}` | {summ[:170]}{'…' if len(summ) > 170 else ''} | {needs[:150]}{'…' if len(needs) > 150 else ''} | {', '.join(det) or '–'} | {', '.join(mis) or '–'} | {'yes' if strengthened else ''} |")
 print("| seeded change | what was changed | what it needs | caught by | also run, silent | strengthened for it |")
 print("|---|---|---|---|---|---|")
